@@ -506,9 +506,13 @@ def leafChks : List Chk :=
    .prim ⟨some (.choice [nmB]), .allowed⟩ .name, .prim ⟨none, .required⟩ .integer,
    .any ⟨some .never, .allowed⟩, .prim ⟨none, .forbidden⟩ .string, .prim dA .null]
 
-def smallGraph : Graph := [((1, 0), .int 1), ((2, 0), nmA), ((3, 0), .ref 3 0), ((4, 0), .ref 1 0)]
+/-- 3 -> 3 is a self reference; 5 -> 3 -> 3 and 8 -> 6 -> 7 -> 6 are LASSO chains of references (a tail
+    leading into a cycle that does not contain the starting id: seed C09_3 only stopped on the start) -/
+def smallGraph : Graph := [((1, 0), .int 1), ((2, 0), nmA), ((3, 0), .ref 3 0), ((4, 0), .ref 1 0),
+  ((5, 0), .ref 3 0), ((6, 0), .ref 7 0), ((7, 0), .ref 6 0), ((8, 0), .ref 6 0)]
 
-def leafObjs : List Obj := [.int 1, .int 2, nmA, nmB, strS, .null, .ref 1 0, .ref 2 0, .ref 3 0, .ref 4 0, .ref 9 0]
+def leafObjs : List Obj := [.int 1, .int 2, nmA, nmB, strS, .null, .ref 1 0, .ref 2 0, .ref 3 0, .ref 4 0, .ref 9 0,
+  .ref 5 0, .ref 8 0]
 
 def smallObjs : List Obj :=
   leafObjs ++ (leafObjs.take 7).flatMap (fun x => [mkArr [x], .dict (mkDict [(kA, x)])])
